@@ -48,6 +48,11 @@ func c01Random(seed uint64, i int, ntexts int) *c01Case {
 	}
 	pg := gen.NewPG(rng, sc)
 	p := pg.FindProgram()
+	if rng.Chance(1, 6) {
+		// naming a loop changes what is reported about it, not what it matches
+		n := 0
+		p.Commands[0].Body = gen.NameLoops(rng, p.Commands[0].Body, &n)
+	}
 	src := gen.RenderProgram(p)
 	ta := TextAlphaFor(sc.Alpha)
 	if i%4 == 1 {
@@ -157,7 +162,7 @@ func C01(r *drv.Run) {
 	if !quick(r) {
 		nprog, ntext = 150000, 16
 	}
-	r.Rule = "programs: seeded random over the core search language (literals, not, caseless, classes, anchors, in/not in, all loop forms greedy and fewest, or, groups, captures, back-references, inline subroutines incl. guarded recursion, set-to-pattern with/without predicate) + exhaustive small programs; inputs derived from each program (sampled matches, prefixes, one-byte edits, concatenations, noise); plus a deep family: 8 fixed shapes (greedy / lazy loop then literal, loop of a group with an optional part, recursion depth, recursion inside a loop, many matches, capture in a deep loop then back-reference, negated-list run) on structured inputs sized k = 10, 63..65, 127..129, 255..257, 511..513 (thorough: ..1400) repetitions, and 5 counted-loop shapes whose bounds are k = 15..17, 31..33, 63..65, 100, 127..129 (thorough: ..300) on inputs with k-1, k, k+1, 2k, 2k+1 repetitions; plus caseless literals beyond ASCII (every ordered pair of 26 letters from Greek / Latin-1 / Cyrillic / digraph folding orbits, alone, in a loop with an alternative, in a list; five words). Oracle: reference backtracker (ref/), cross-checked by Go regexp on the regular subset. Non-trivial = reference found >= 1 match AND the VM hook saw >= 1 resume from a saved choice point; distinct by (program, text). One random program in twenty is WIDE rather than deep: 9..300 captures / alternatives / list items / optional groups / inline subroutines / stored patterns / anchored lines, counts on both sides of 10, 16, 32, 64, 100, 128, 256, on texts holding matches, near misses and leftovers."
+	r.Rule = "programs: seeded random over the core search language (literals, not, caseless, classes, anchors, in/not in, all loop forms greedy and fewest, or, groups, captures, back-references, inline subroutines incl. guarded recursion, set-to-pattern with/without predicate) + exhaustive small programs; inputs derived from each program (sampled matches, prefixes, one-byte edits, concatenations, noise); plus a deep family: 8 fixed shapes (greedy / lazy loop then literal, loop of a group with an optional part, recursion depth, recursion inside a loop, many matches, capture in a deep loop then back-reference, negated-list run) on structured inputs sized k = 10, 63..65, 127..129, 255..257, 511..513 (thorough: ..1400) repetitions, and 5 counted-loop shapes whose bounds are k = 15..17, 31..33, 63..65, 100, 127..129 (thorough: ..300) on inputs with k-1, k, k+1, 2k, 2k+1 repetitions; plus caseless literals beyond ASCII (every ordered pair of 26 letters from Greek / Latin-1 / Cyrillic / digraph folding orbits, alone, in a loop with an alternative, in a list; five words). Oracle: reference backtracker (ref/), cross-checked by Go regexp on the regular subset. Non-trivial = reference found >= 1 match AND the VM hook saw >= 1 resume from a saved choice point; distinct by (program, text). One random program in six has some of its loops named (the name changes what is reported, not what is matched), and the counted-loop family has named between / at least forms. One random program in twenty is WIDE rather than deep: 9..300 captures / alternatives / list items / optional groups / inline subroutines / stored patterns / anchored lines, counts on both sides of 10, 16, 32, 64, 100, 128, 256, on texts holding matches, near misses and leftovers."
 	r.Assumptions = []string{
 		"reference matcher (harness/ref) is the meaning of the pattern as written; it is cross-checked against Go regexp on the regular subset on every case",
 		"word start at end of input / word end at offset 0 / word end at end of input after a non-word byte are don't-care (either answer accepted)",
@@ -384,6 +389,9 @@ func c01CountedTemplates(k int) []c01DeepTemplate {
 		{"at-least-k", []gen.Node{x, gen.Loop{Min: k, Max: -1, Form: "atleast", Body: a}, b}, tx},
 		{"at-most-k", []gen.Node{x, gen.Loop{Min: 0, Max: k, Form: "atmost", Body: a}, b}, tx},
 		{"between-k-and-2k", []gen.Node{x, gen.Loop{Min: k, Max: 2 * k, Form: "between", Body: a}, b}, tx},
+		{"between-k-and-2k-named", []gen.Node{x, gen.Loop{Min: k, Max: 2 * k, Form: "between", Name: "run", Body: a}, b}, tx},
+		{"at-least-k-named", []gen.Node{x, gen.Loop{Min: k, Max: -1, Form: "atleast", Name: "run", Body: a}, b}, tx},
+		{"between-k-and-k-plus-1-named-fewest", []gen.Node{x, gen.Loop{Min: k, Max: k + 1, Form: "between", Lazy: true, Name: "run", Body: a}, gen.Loop{Min: 0, Max: -1, Form: "atleast", Body: a}, b}, tx},
 		{"between-k-and-2k-fewest", []gen.Node{x, gen.Loop{Min: k, Max: 2 * k, Form: "between", Lazy: true, Body: a}, gen.Loop{Min: 0, Max: -1, Form: "atleast", Body: a}, b}, tx},
 	}
 }
